@@ -125,6 +125,7 @@ func (g *Generator) Generate(args *Arguments) (res *plugin.Response) {
 		err := fmt.Sprintf("No generator for language '%s'.", out.Language)
 		return plugin.BuildErrorResponse(err)
 	}
+	g.pp = nil // a backend without a post-processor must not inherit the previous language's one
 	if pp, ok := be.(backend.PostProcessor); ok {
 		g.pp = pp
 	}
